@@ -34,7 +34,7 @@ var tsPool = []time.Time{
 	time.Date(9999, 12, 31, 23, 59, 59, 0, time.UTC),
 	time.Date(1, 1, 1, 0, 0, 1, 0, time.UTC),
 	time.Date(1970, 1, 1, 0, 0, 0, 500, time.FixedZone("neg", -11*3600-1800)),
-	time.Date(1931, 6, 1, 8, 0, 0, 0, time.FixedZone("LMT", 19*60+32)),           // zone offsets with a seconds part
+	time.Date(1931, 6, 1, 8, 0, 0, 0, time.FixedZone("LMT", 19*60+32)),             // zone offsets with a seconds part
 	time.Date(1883, 11, 18, 12, 0, 0, 7, time.FixedZone("LMT", -(4*3600+56*60+2))), // (local mean time zones of tzdata)
 }
 
@@ -474,39 +474,48 @@ func storeDomain(lines []string) []string {
 			}
 			out = append(out, fmt.Sprintf("replay end=%s recs=%s appends=%d handlers=%d", end, rs, appends, handlerCalls))
 		case "raceappend":
-			// concurrent appenders on one store: afterwards the log must hold every event once, with
-			// offsets strictly increasing in log order (compared as the store documents: numerically for sqlite)
+			// concurrent appenders on one store: afterwards the log must hold every ACKNOWLEDGED event once, at the
+			// offset that was acknowledged, with offsets strictly increasing in log order (compared as the store
+			// documents: numerically for sqlite). An Append may refuse (SQLITE_BUSY on a file database under
+			// contention): a refused event need not be there; the number of refusals is reported as information.
 			g, n := atoi(f[1]), atoi(f[2])
 			var wg sync.WaitGroup
 			var mu sync.Mutex
 			errs := 0
+			acked := map[int]string{}
 			for i := 0; i < g; i++ {
 				wg.Add(1)
 				go func(i int) {
 					defer wg.Done()
 					for k := 0; k < n; k++ {
-						off, err := sc.cur.st.Append(ctx, mkEvent(100000+i*1000+k, sc.cur.padded))
+						rec := 100000 + i*1000 + k
+						off, err := sc.cur.st.Append(ctx, mkEvent(rec, sc.cur.padded))
 						mu.Lock()
 						if err != nil {
 							errs++
 						} else {
 							sc.cur.appOffs = append(sc.cur.appOffs, string(off))
+							acked[rec] = string(off)
 						}
 						mu.Unlock()
 					}
 				}(i)
 			}
 			wg.Wait()
+			if errs > 0 {
+				out = append(out, fmt.Sprintf("~raceappend refused=%d of %d", errs, g*n))
+			}
 			if sc.kind == "ds" {
 				out = append(out, "raceappend ok") // read-back over chunks is the known finding's territory
 				continue
 			}
 			evs, _, err := sc.cur.st.Read(ctx, eb.OffsetOldest, 0)
 			verdict := "raceappend ok"
-			if err != nil || errs > 0 {
-				verdict = fmt.Sprintf("!raceappend errors=%d read=%v", errs, err)
+			if err != nil {
+				verdict = fmt.Sprintf("!raceappend read=%v", err)
 			} else {
 				seen := map[string]bool{}
+				at := map[string]string{}
 				prev := ""
 				for _, e := range evs {
 					o := string(e.Offset)
@@ -520,6 +529,16 @@ func storeDomain(lines []string) []string {
 					}
 					seen[o] = true
 					prev = o
+					at[identify(e, sc.cur.padded)] = o
+				}
+				for rec, off := range acked {
+					if got, ok := at[fmt.Sprint(rec)]; !ok {
+						verdict = fmt.Sprintf("!raceappend event %d was acknowledged at offset %q but is not in the log", rec, off)
+						break
+					} else if got != off {
+						verdict = fmt.Sprintf("!raceappend event %d was acknowledged at offset %q but is stored at %q", rec, off, got)
+						break
+					}
 				}
 			}
 			out = append(out, verdict)
